@@ -797,7 +797,7 @@ class Interp:
                 if isinstance(v, Table) and len(v.shape) == 1:
                     n = v.shape[0]
                     return Table.full((n, n), lambda idx: v.data[(idx[0],)] if idx[0] == idx[1] else LP.const(0))
-            if name in ("dot", "matmul") and len(e.args) == 2:
+            if name in ("dot", "matmul") and len(e.args) == 2 and not e.keywords:
                 return _dot(self.num(self.ev(e.args[0], env)), self.num(self.ev(e.args[1], env)))
             if name in ("prod", "sum") and len(e.args) == 1 and not e.keywords and not isinstance(e.args[0], (ast.GeneratorExp, ast.ListComp)):
                 v = self.num(self.ev(e.args[0], env))
@@ -898,6 +898,35 @@ class Interp:
                     return Table((v.shape[0],), {(i,): sum((v.data[(i, j)] for j in range(v.shape[1])), LP()) for i in range(v.shape[0])})
                 if isinstance(v, Table) and len(v.shape) == 2 and axis in (0, -2):
                     return Table((v.shape[1],), {(j,): sum((v.data[(i, j)] for i in range(v.shape[0])), LP()) for j in range(v.shape[1])})
+            if name == "mean" and len(e.args) == 1:
+                v = self.num(self.ev(e.args[0], env))
+                axis = next((self.ev(k_.value, env) for k_ in e.keywords if k_.arg == "axis"), None)
+                if isinstance(v, Table) and len(v.shape) == 2 and axis in (0, -2):
+                    inv_n = LP.const(Fraction(1, v.shape[0]))
+                    return Table((v.shape[1],), {(j,): sum((v.data[(i, j)] for i in range(v.shape[0])), LP()) * inv_n for j in range(v.shape[1])})
+                if isinstance(v, Table) and len(v.shape) == 1 and axis in (None, 0, -1):
+                    return sum(v.data.values(), LP()) * LP.const(Fraction(1, v.shape[0]))
+            if name == "append" and len(e.args) == 2 and not e.keywords:
+                a_, b_ = self.num(self.ev(e.args[0], env)), self.ev(e.args[1], env)
+                if isinstance(a_, Table) and len(a_.shape) == 1:
+                    extra = [self.lp(x) for x in b_] if isinstance(b_, list) else [self.lp(b_)] if isinstance(b_, (int, LP)) else None
+                    if isinstance(b_, Table) and len(b_.shape) == 1:
+                        extra = [b_.data[(i,)] for i in range(b_.shape[0])]
+                    if extra is not None:
+                        vals = [a_.data[(i,)] for i in range(a_.shape[0])] + extra
+                        return Table((len(vals),), {(i,): x for i, x in enumerate(vals)})
+            if name == "matmul" and len(e.args) == 2:
+                a_, b_ = self.num(self.ev(e.args[0], env)), self.num(self.ev(e.args[1], env))
+                flags = {k_.arg: self.ev(k_.value, env) for k_ in e.keywords}
+                if isinstance(a_, Table) and isinstance(b_, Table) and set(flags) <= {"transpose_a", "transpose_b"} and all(isinstance(x, bool) for x in flags.values()):
+                    def tr(t_):
+                        return Table((t_.shape[1], t_.shape[0]), {(j, i): x for (i, j), x in t_.data.items()}) if len(t_.shape) == 2 else t_
+                    return _dot(tr(a_) if flags.get("transpose_a") else a_, tr(b_) if flags.get("transpose_b") else b_)
+            if name == "swapaxes" and len(e.args) == 3:
+                v = self.num(self.ev(e.args[0], env))
+                ax = sorted(self.ev(x, env) for x in e.args[1:])
+                if isinstance(v, Table) and len(v.shape) == 2 and ax in ([-2, -1], [0, 1]):
+                    return Table((v.shape[1], v.shape[0]), {(j, i): x for (i, j), x in v.data.items()})
             if name == "isinstance" and len(e.args) == 2:
                 v = self.ev(e.args[0], env)
                 names_ = [x.id for x in (e.args[1].elts if isinstance(e.args[1], ast.Tuple) else [e.args[1]]) if isinstance(x, ast.Name)]
@@ -979,7 +1008,7 @@ class Interp:
         # a helper of the package (module-level function): interpreted with the evaluated arguments
         if isinstance(f, ast.Name) and self.depth < 4:
             helper = self.prog.find_func(name)
-            if helper is not None and helper.cls is None and helper.parent is None and name not in ("dist", "angle", "det", "adjugate", "outer", "roots", "inv"):
+            if helper is not None and helper.cls is None and helper.parent is None and name not in ("dist", "angle", "det", "adjugate", "outer", "roots", "inv", "matmul", "matvec"):
                 return self.call_helper(helper, e, env)
         if name == "dist" and len(e.args) == 2:
             a, b = self.ev(e.args[0], env), self.ev(e.args[1], env)
@@ -1542,7 +1571,7 @@ def _quadratic_form(m: Table, p: Table) -> LP:
 
 def rule_conics(run: Run, prog: Program) -> int:
     run.rule("E19.pts", "Conic.from_points and Conic.from_crossratio, read as tables of polynomials in the coordinates of their points, contain those points: "
-                        "p^T M p vanishes identically for each of the five (four) points")
+                        "p^T M p vanishes identically for each of the five (four) points - also when one of them is a point at infinity")
     conic = prog.find_cls("Conic")
     n = 0
     if conic is None:
@@ -1557,38 +1586,40 @@ def rule_conics(run: Run, prog: Program) -> int:
         if len(params) != npts + lead:
             run.add("E19.pts", fn.short, "contains its points", UNDECIDED, "signature changed", fn.loc)
             continue
-        env: dict = {}
-        if lead:
-            env[params[0]] = LP.sym("cr")
-        pts = []
-        for k, p in enumerate(params[lead:]):
-            env[p] = PointSym(f"p{k}_", 2)
-            pts.append(env[p])
-        n += 1
-        try:
-            m, _it = run_function(prog, fn, conic, env)
-            if not isinstance(m, Table) or m.shape != (3, 3):
-                run.add("E19.pts", fn.short, "contains its points", UNDECIDED, f"the matrix is not read as a 3x3 table of polynomials: {getattr(m, 'why', type(m).__name__)[:100]}", fn.loc)
+        for at_inf in (None, npts - 1):
+            env: dict = {}
+            if lead:
+                env[params[0]] = LP.sym("cr")
+            pts = []
+            for k, p in enumerate(params[lead:]):
+                env[p] = PointSym(f"p{k}_", 2, at_infinity=(k == at_inf))
+                pts.append(env[p])
+            n += 1
+            label = "contains its points" + ("" if at_inf is None else " (the last one at infinity)")
+            try:
+                m, _it = run_function(prog, fn, conic, env)
+                if not isinstance(m, Table) or m.shape != (3, 3):
+                    run.add("E19.pts", fn.short, label, UNDECIDED, f"the matrix is not read as a 3x3 table of polynomials: {getattr(m, 'why', type(m).__name__)[:100]}", fn.loc)
+                    continue
+                bad = []
+                for k, p in enumerate(pts):
+                    # judged on the normalised representative: the statement is projective, and fewer symbols keep the polynomials small
+                    q = _quadratic_form(m, p.normalized() if name == "from_points" else p.raw())
+                    if not q.is_zero():
+                        bad.append((k, q))
+            except (Unknown, NotPolynomial, RecursionError) as ex:
+                run.add("E19.pts", fn.short, label, UNDECIDED, f"not read: {str(ex)[:100]}", fn.loc)
                 continue
-            bad = []
-            for k, p in enumerate(pts):
-                # judged on the normalised representative: the statement is projective, and fewer symbols keep the polynomials small
-                q = _quadratic_form(m, p.normalized() if name == "from_points" else p.raw())
-                if not q.is_zero():
-                    bad.append((k, q))
-        except (Unknown, NotPolynomial, RecursionError) as ex:
-            run.add("E19.pts", fn.short, "contains its points", UNDECIDED, f"not read: {str(ex)[:100]}", fn.loc)
-            continue
-        sym = all((m.data[(i, j)] - m.data[(j, i)]).is_zero() for i in range(3) for j in range(3))
-        if bad:
-            k, q = bad[0]
-            run.add("E19.pts", fn.short, "contains its points", VIOLATION,
-                    f"argument {lead + k + 1} (`{params[lead + k]}`) does not lie on the conic: p^T M p is a polynomial with {len(q.t)} term(s), e.g. {LP(dict(list(q.t.items())[:2])).show()[:100]}, "
-                    f"not 0 ({len(bad)} of {npts} points fail)", fn.loc)
-        elif not sym:
-            run.add("E19.pts", fn.short, "contains its points", VIOLATION, "the matrix is not symmetric: tangent, polar and dual read M as the symmetric matrix of the form", fn.loc)
-        else:
-            run.add("E19.pts", fn.short, "contains its points", PROVEN, f"p^T M p = 0 identically for all {npts} points; M is symmetric", fn.loc)
+            sym = all((m.data[(i, j)] - m.data[(j, i)]).is_zero() for i in range(3) for j in range(3))
+            if bad:
+                k, q = bad[0]
+                run.add("E19.pts", fn.short, label, VIOLATION,
+                        f"argument {lead + k + 1} (`{params[lead + k]}`) does not lie on the conic: p^T M p is a polynomial with {len(q.t)} term(s), e.g. "
+                        f"{LP(dict(list(q.t.items())[:2])).show()[:100]}, not 0 ({len(bad)} of {npts} points fail)", fn.loc)
+            elif not sym:
+                run.add("E19.pts", fn.short, label, VIOLATION, "the matrix is not symmetric: tangent, polar and dual read M as the symmetric matrix of the form", fn.loc)
+            else:
+                run.add("E19.pts", fn.short, label, PROVEN, f"p^T M p = 0 identically for all {npts} points; M is symmetric", fn.loc)
     return n
 
 
